@@ -254,6 +254,7 @@ var (
 	waiting    = map[string]chan *Conn{}
 	failing    = map[string]error{}
 	presetFail = map[string]int{}
+	presetGate = map[string]chan struct{}{}
 	seq        int
 )
 
@@ -274,6 +275,9 @@ func (d dialer) Dial(network, address string) (net.Conn, error) {
 	dmu.Lock()
 	if k := presetFail[d.id]; k > 0 {
 		c.writeErrAt = k
+	}
+	if g := presetGate[d.id]; g != nil {
+		c.writeGate = g
 	}
 	dmu.Unlock()
 	ch <- c
@@ -303,6 +307,17 @@ func PresetFailWrite(proxyURL string, k int) {
 	dmu.Lock()
 	defer dmu.Unlock()
 	presetFail[u.Host] = k
+}
+
+// PresetGateWrites makes every Write of every connection dialled through proxyURL wait for a token from the
+// returned channel, from the very first write on (so the registration lines stay queued until released).
+func PresetGateWrites(proxyURL string) chan struct{} {
+	u, _ := url.Parse(proxyURL)
+	g := make(chan struct{}, 1<<16)
+	dmu.Lock()
+	defer dmu.Unlock()
+	presetGate[u.Host] = g
+	return g
 }
 
 // FailDial makes dials through proxyURL fail with err (nil = succeed again).
